@@ -44,6 +44,7 @@ INDEX = st.tuples(st.just("index"), VAR, RSEL, CSEL).map(list)
 INDEX_VIEW = st.tuples(st.just("index"), VAR, RSEL_VIEW, CSEL_SLICE).map(list)
 PRODUCERS = [
     st.tuples(st.just("alias"), VAR, st.sampled_from(["...", "()"])).map(list),
+    st.tuples(st.just("reflat"), VAR, st.sampled_from(["same", "reversed", "strided"])).map(list),
     st.tuples(st.just("ufunc1"), VAR, st.sampled_from(["neg", "add1", "mul2", "gt", "abs", "square"])).map(list),
     st.tuples(st.just("ufunc2"), VAR, VAR, st.sampled_from(["add", "sub", "max"])).map(list),
     st.tuples(st.just("colvec"), VAR, st.lists(st.integers(-3, 3), min_size=1, max_size=5), st.sampled_from(["left", "right"]), st.sampled_from(["add", "sub"])).map(list),
@@ -135,6 +136,27 @@ def twin_case(draw, tier):
     steps.append(op)
     tail = draw(st.lists(OBSERVER, max_size=2))
     return {"lens": draw(gen.lengths(tier, min_rows=1, max_rows=5)), "steps": steps + tail}
+
+
+PRODUCER = st.one_of(*PRODUCERS).map(list)
+
+
+@st.composite
+def derive_write_case(draw, tier):
+    """a chain of 1-3 producing operations, each applied to the newest result (every third chain repeats one operation),
+    then an assignment into the last result, then reads: 'assigning into it never alters the array it was derived from'"""
+    k = draw(st.integers(1, 3))
+    first = list(draw(PRODUCER))
+    steps = []
+    repeat = draw(st.integers(0, 2)) == 0
+    for d in range(k):
+        s = list(first) if (repeat or d == 0) else list(draw(PRODUCER))
+        s[1] = -1         # the newest variable
+        steps.append(s)
+    w = list(draw(WRITER))
+    w[1] = -1
+    steps.append(w)
+    return {"lens": draw(gen.lengths(tier, min_rows=1, max_rows=5)), "steps": steps + draw(st.lists(OBSERVER, max_size=2))}
 
 
 # ---------------------------------------------------------------- model-based view chains
@@ -252,6 +274,9 @@ SUBCHECKS = [
                  "npstructures as feedback (16 campaigns, fresh corpus each, removed afterwards); evaluations = programs actually executed"),
     SubCheck("twin", body_program, twin_case, quick=9000, thorough=600000, shards_quick=4,
              doc="1-2 compounding selections, then one operation of the full vocabulary on the pending view vs its fresh twin"),
+    SubCheck("derive-then-assign", body_program, derive_write_case, quick=6000, thorough=500000, shards_quick=4,
+             doc="1-3 producing operations chained on the newest result (often the same operation repeated), an assignment into the last "
+                 "result, reads; lazy world vs freshly-rebuilt world incl. the final content of every array of the chain"),
     SubCheck("view-chain-model", body_chain, chain_case, quick=9000, thorough=600000, shards_quick=4,
              doc="1-3 compounding row/column selections, then every terminal read / integer row / cell / write, against the list-of-rows model"),
 ]
